@@ -29,7 +29,7 @@ class Mode(LogMixin):
     __slots__ = ["machine", "config", "name", "path", "priority", "_active", "_starting", "_mode_start_wait_queue",
                  "stop_methods", "start_callback", "stop_callbacks", "event_handlers", "switch_handlers",
                  "mode_stop_kwargs", "mode_devices", "start_event_kwargs", "stopping", "delay", "player",
-                 "auto_stop_on_ball_end", "restart_on_next_ball", "asset_paths"]
+                 "auto_stop_on_ball_end", "restart_on_next_ball", "asset_paths", "_stop_cleanup_pending"]
 
     # pylint: disable-msg=too-many-arguments
     def __init__(self, machine: "MachineController", config, name: str, path, asset_paths) -> None:
@@ -53,6 +53,7 @@ class Mode(LogMixin):
         self._active = False
         self._starting = False
         self._mode_start_wait_queue = None      # type: Optional[QueuedEvent]
+        self._stop_cleanup_pending = False
         self.stop_methods = list()              # type: List[Tuple[Callable[[Any], None], Any]]
         self.start_callback = None              # type: Optional[Callable[[], None]]
         self.stop_callbacks = []                # type: List[Callable[[], None]]
@@ -164,6 +165,11 @@ class Mode(LogMixin):
         if self._starting:
             self.debug_log("Mode already starting. Aborting start.")
             return
+
+        if self._stop_cleanup_pending:
+            # restarted from a handler of our own mode_<name>_stopped event. finish the previous stop first or its
+            # clean-up would remove the handlers and devices of this new run.
+            self._mode_stopped_callback()
 
         self._starting = True
 
@@ -352,6 +358,7 @@ class Mode(LogMixin):
         for event_name in self.config['mode']['events_when_stopped']:
             self.machine.events.post(event_name)
 
+        self._stop_cleanup_pending = True
         self.machine.events.post('mode_' + self.name + '_stopped',
                                  callback=self._mode_stopped_callback)
         '''event: mode_(name)_stopped
@@ -380,6 +387,9 @@ class Mode(LogMixin):
 
     def _mode_stopped_callback(self, **kwargs) -> None:
         del kwargs
+        if not self._stop_cleanup_pending:
+            return
+        self._stop_cleanup_pending = False
 
         # Call the mode_stop() method before removing the devices
         self.mode_stop(**self.mode_stop_kwargs)
